@@ -91,7 +91,7 @@ def classify (old : Option Bytes) (new : Bytes) (r : Option Bytes) : Char :=
     if old = some c then (if c = new then 'b' else 'o')
     else if c = new then 'n' else 'X'
 
-/-- every byte the trace writes anywhere (part file or, for an unsafe trace, the destination itself) -/
+/-- every byte the trace writes anywhere (part file or, for a rejected trace, the destination itself) -/
 def allData : List Ev → Bytes
   | [] => []
   | .write d _ :: t => d ++ allData t
